@@ -246,7 +246,7 @@ def run_ext(ctx):
     # 2. behaviours of the Impl model -> scripts of fake peers
     scenarios, seen = [], set()
     for i, u in enumerate(SIMS):
-        hs = ctx.tlc_sim(SUB, "NetSyncSim.tla", "Sim_%s.cfg" % u, num=40 if q else 400, depth=30, timeout=600, seed=ctx.seed * 10 + i)
+        hs = ctx.tlc_sim(SUB, "NetSyncSim.tla", "Sim_%s.cfg" % u, num=40 if q else 600, depth=30, timeout=600, seed=ctx.seed * 10 + i)
         fresh = []
         for h in hs:
             env = [s for s in h["steps"][1:]]
@@ -257,29 +257,29 @@ def run_ext(ctx):
                 seen.add(k)
                 fresh.append(h)
         rnd.shuffle(fresh)
-        for j, h in enumerate(fresh[: (14 if q else 120)]):
+        for j, h in enumerate(fresh[: (14 if q else 250)]):
             scenarios.append(realise(h, rnd.choice([1, 1, 2, 5]), rnd, "tlc-%s-%d" % (u, j)))
-        for j, h in enumerate(fresh[: (1 if q else 5)]):
+        for j, h in enumerate(fresh[: (1 if q else 8)]):
             n = h["steps"][0]["n"]
             scenarios.append(realise(h, SRC_N // n, rnd, "tlcL-%s-%d" % (u, j), far_ok=False))
     if not scenarios:
         raise vlib.Inconclusive("no NetSyncSim behaviours generated")
     ctx.extra["net_tlc_scripts"] = len(scenarios)
-    for i in range(60 if q else 700):
+    for i in range(60 if q else 2000):
         scenarios.append(random_scenario(rnd, "rnd-%d" % i))
-    scenarios += long_scenarios(rnd, 4 if q else 25)
+    scenarios += long_scenarios(rnd, 4 if q else 50)
 
     # 3. handshake scripts: every script up to length 3 (quick) / 4 (thorough) + a sample of longer ones
     cases = ctx.tlc_dump(SUB, "HandshakeImpl.tla", "MC_hs_enum%d.cfg" % (4 if q else 5), timeout=900)
     short = [c for c in cases if len(c["script"]) <= (3 if q else 4)]
     longer = [c for c in cases if len(c["script"]) > (3 if q else 4)]
     rnd.shuffle(longer)
-    hs_cases = short + longer[: (250 if q else 3000)]
+    hs_cases = short + longer[: (250 if q else 6000)]
     handshake = [{"name": "".join(c["script"]) + "#%d" % i, "script": c["script"],
                   "pred": {k: c[k] for k in ("closed", "closedAt", "veracks", "pongs", "answers", "taken", "final")}} for i, c in enumerate(hs_cases)]
     ctx.extra["net_handshake_scripts"] = len(handshake)
 
-    statesync = ss_cases(rnd, 3 if q else 15)
+    statesync = ss_cases(rnd, 3 if q else 30)
 
     ind = os.path.join(ctx.work, "in-c20net")
     os.makedirs(ind, exist_ok=True)
